@@ -156,6 +156,7 @@ def run_shard(shard, ctx):
         _tokens(ctx, shard[1])
     elif kind == "nearmiss":
         _nearmiss(ctx)
+        _runs(ctx)
         _foreign_digits(ctx)
         _shared_text(ctx)
     else:
@@ -330,6 +331,18 @@ def _nearmiss(ctx):
         for nm in NEAR_MISS:
             for body in ([g, nm], [nm, g], [g, nm, nm], [g, nm, g.replace("2 =", "5 =")], ["0 = N 0 0", g, nm, "9 = E end"], [good["S"], good["E"], nm, g.replace("2 =", "6 =")]):
                 check_e2e(ctx, body, "near-miss line %r next to a %s line" % (nm, k))
+
+
+def _runs(ctx):
+    """Canonical lines behind (and between) long RUNS of lines of another shape: every one of them is still
+    decoded, however many unrecognised lines the section has seen before."""
+    good = ["%d = N %d %d" % (10 + 2 * i, i % 5, i) for i in range(6)] + ["30 = S 2 7", "31 = E solo", "33 = N 7 2", "33 = N 5 0"]
+    for n in (99, 100, 101, 128, 257, 1000, 1025):
+        for nm in (NEAR_MISS[0], NEAR_MISS[2], NEAR_MISS[5], None):
+            run = [(nm if nm is not None else NEAR_MISS[i % len(NEAR_MISS)]) for i in range(n)]
+            check_e2e(ctx, run + good, "%d unrecognised lines (%r...) in front of canonical lines" % (n, run[0]))
+            check_e2e(ctx, good[:3] + run + good[3:], "%d unrecognised lines (%r...) between canonical lines" % (n, run[0]))
+            check_e2e(ctx, good[:3] + run[: n // 2] + good[3:6] + run[n // 2 :] + good[6:], "%d unrecognised lines (%r...) in two runs between canonical lines" % (n, run[0]))
 
 
 BLOCK_TRACK = [("%d = N %d %d" % (24 * i, i % 5, 3 * (i % 4)), "%d = N 7 %d" % (24 * i, i), "%d = S 2 %d" % (24 * i, 10 + i), "%d = E solo%d" % (24 * i, i), "%d = N %d 0" % (24 * i, (i + 2) % 5), "%d = N 6 0" % (24 * i))[i % 6] for i in range(36)]
